@@ -12,6 +12,8 @@
 -/
 import Rtp.Proofs.HeaderExtWire
 import Rtp.Proofs.PacketParse
+import Rtp.Proofs.HeaderExtSpec
+import Rtp.Proofs.HeaderExtStart
 namespace Rtp.Props.C05
 open Rtp Rtp.Model Rtp.Pred Rtp.Pred.C05 Rtp.Proofs.HeaderExt
 open Rtp.Spec.OrderedMap (Map Op)
@@ -56,6 +58,15 @@ theorem c05_inv_start (p : UInt16) :
   refine ⟨by decide, by decide, by decide, ?_⟩
   unfold legal
   by_cases h : (p == profileOneByte || p == profileTwoByte) = true <;> simp [h]
+
+/-- start states from the wire: whatever Header.Unmarshal produces from any bytes into any receiver
+    satisfies `Inv`, except that the one-byte parser admits an element with id 0 (header byte
+    0x01–0x0F: id 0, 2–16 bytes), which SetExtension refuses; such elements survive the wire but are
+    outside the acceptance table, hence the side condition. -/
+theorem c05_inv_wire_start (r : Header) (buf : Bytes) (h : Header) (n : Nat)
+    (hok : hdrUnmarshal r buf = .ok (h, n))
+    (hid : h.extProfile = profileOneByte → ∀ e ∈ h.exts, e.id ≠ 0) : legal h = true :=
+  hdrUnmarshal_legal r buf h n hok hid
 
 /-- refinement: for every start state without ghost elements and every operation list, the model's
     accessors produce exactly the trace of Spec.OrderedMap (accepted?, ids, values after every
@@ -146,34 +157,22 @@ theorem c05_wire (hrt : HeaderRoundTrip) (h : Header) (id : UInt8) (v : Bytes) (
 theorem c05_inv_extsLegal (h : Header) (hl : legal h = true)
     (hleg : isLegacy h.extProfile = true → h.extension = true →
       ∃ e, h.exts = [e] ∧ e.payload.length % 4 = 0) :
-    C01.extsLegal h = true := by
-  unfold legal at hl
-  unfold C01.extsLegal
-  by_cases hx : h.extension = true
-  · simp only [hx, Bool.not_true, Bool.false_eq_true, if_false] at hl ⊢
-    by_cases h1 : (h.extProfile == profileOneByte) = true
-    · simp only [h1, Bool.true_or, if_true] at hl ⊢
-      rw [List.all_eq_true] at hl ⊢
-      intro e he
-      have := hl e he
-      have hp : h.extProfile = profileOneByte := by simpa using h1
-      rw [validate_accepts, hp] at this
-      simpa [Spec.OrderedMap.accepts, Spec.OrderedMap.oneByte, profileOneByte] using this
-    · by_cases h2 : (h.extProfile == profileTwoByte) = true
-      · simp only [h1, h2, Bool.or_true, Bool.false_eq_true, if_false, if_true] at hl ⊢
-        rw [List.all_eq_true] at hl ⊢
-        intro e he
-        have := hl e he
-        have hp : h.extProfile = profileTwoByte := by simpa using h2
-        rw [validate_accepts, hp] at this
-        simpa [Spec.OrderedMap.accepts, Spec.OrderedMap.oneByte, Spec.OrderedMap.twoByte, profileTwoByte] using this
-      · simp only [h1, h2, Bool.or_self, Bool.false_eq_true, if_false] at hl ⊢
-        obtain ⟨e, he, hm⟩ := hleg (by simp [isLegacy, h1, h2]) hx
-        rw [he] at hl ⊢
-        simp only at hl ⊢
-        simp [hl, hm]
-  · have hx' : h.extension = false := by simpa using hx
-    simpa [hx'] using hl
+    C01.extsLegal h = true :=
+  extsLegal_of_legal h hl hleg
+
+/-- C05's wire statement in the form of DESIGN §6: on a header that satisfies `Inv`, with sane
+    fixed fields (version < 4, PT < 128, ≤ 15 CSRCs) and a block that fits the 16-bit word count,
+    every value SetExtension accepts — for a legacy profile: of whole words, the one case Marshal
+    may refuse (`c05_marshal_err`) — comes back unchanged after Marshal and Unmarshal. -/
+theorem c05_wire_inv (hrt : HeaderRoundTrip) (h : Header) (id : UInt8) (v : Bytes) (h' : Header)
+    (hl : legal h = true) (hs : setExtension h id v = (none, h'))
+    (hfix : h.version.toNat < 4 ∧ h.payloadType.toNat < 128 ∧ h.csrc.length ≤ 15)
+    (hsize : extBodySize h' ≤ 65535 * 4)
+    (hleg : isLegacy h'.extProfile = true → v.length % 4 = 0) :
+    ∃ bs, hdrMarshal h' = .ok bs ∧
+      ∀ r : Header, ∃ h'', hdrUnmarshal r bs = .ok (h'', bs.length) ∧
+        (∀ k, getExtension h'' k = getExtension h' k) ∧ getExtension h'' id = some v :=
+  c05_wire hrt h id v h' (legal_noGhost h hl) hs (wfH_of_set h id v h' hl hs hfix hsize hleg)
 
 /-- main theorem, in the shape the driver evaluates on the real code: for every start state and
     every operation list that meet the hypotheses (`wf`: no ghost elements; `finalWf`: the final
@@ -188,6 +187,46 @@ theorem c05_pred_model (hrt : HeaderRoundTrip) (s : Start) (ops : List Op)
   have hstart : (if h.extension = true then List.map (fun e => (e.id, e.payload)) h.exts else []) = view h := rfl
   simp only [hstart, Bool.not_true, Bool.false_or, hr, Bool.true_and, hf]
   exact finalOk_model hrt _ hfw
+
+/-! ### what "ordered map" means (laws of Spec.OrderedMap, which by `c05_refines` are laws of the
+    accessors): last value per id, first-insertion order, deleted ids absent -/
+
+/-- last value per id; other ids untouched; an update keeps the order, an insertion appends -/
+theorem c05_spec_set (m : Map) (id : UInt8) (v : Bytes) :
+    Spec.OrderedMap.get (Spec.OrderedMap.set m id v) id = some v ∧
+    (∀ k, k ≠ id → Spec.OrderedMap.get (Spec.OrderedMap.set m id v) k = Spec.OrderedMap.get m k) ∧
+    Spec.OrderedMap.keys (Spec.OrderedMap.set m id v) =
+      (if Spec.OrderedMap.has m id then Spec.OrderedMap.keys m else Spec.OrderedMap.keys m ++ [id]) :=
+  ⟨Rtp.Proofs.HeaderExtSpec.get_set_same m id v,
+   fun k hk => Rtp.Proofs.HeaderExtSpec.get_set_other m id k v hk,
+   Rtp.Proofs.HeaderExtSpec.keys_set m id v⟩
+
+/-- deletion removes the first entry of the id and nothing else; with distinct ids (every header
+    not decoded from a wire image with duplicates) the id is absent afterwards, and ids stay distinct -/
+theorem c05_spec_del (m : Map) (id : UInt8) :
+    Spec.OrderedMap.keys (Spec.OrderedMap.del m id) = (Spec.OrderedMap.keys m).erase id ∧
+    (∀ k, k ≠ id → Spec.OrderedMap.get (Spec.OrderedMap.del m id) k = Spec.OrderedMap.get m k) ∧
+    ((Spec.OrderedMap.keys m).Nodup →
+      Spec.OrderedMap.get (Spec.OrderedMap.del m id) id = none ∧
+      (Spec.OrderedMap.keys (Spec.OrderedMap.del m id)).Nodup ∧
+      ∀ v, (Spec.OrderedMap.keys (Spec.OrderedMap.set m id v)).Nodup) :=
+  ⟨Rtp.Proofs.HeaderExtSpec.keys_del m id,
+   fun k hk => Rtp.Proofs.HeaderExtSpec.get_del_other m id k hk,
+   fun hnd => ⟨Rtp.Proofs.HeaderExtSpec.get_del_same m id hnd,
+     Rtp.Proofs.HeaderExtSpec.nodup_del m id hnd,
+     fun v => Rtp.Proofs.HeaderExtSpec.nodup_set m id v hnd⟩⟩
+
+/-- the same on the model: after an accepted DelExtension on a header with distinct ids the id is
+    gone, every other id reads as before -/
+theorem c05_del_get (h : Header) (id : UInt8) (h' : Header) (hg : noGhost h = true)
+    (hnd : (getExtensionIDs h).Nodup) (hs : delExtension h id = (none, h')) :
+    getExtension h' id = none ∧ ∀ k, k ≠ id → getExtension h' k = getExtension h k := by
+  have hv := step_view h (.del id) hg (by simp [modelStep, hs])
+  simp only [modelStep, hs, Spec.OrderedMap.apply] at hv
+  rw [ids_view] at hnd
+  refine ⟨?_, fun k hk => ?_⟩
+  · rw [get_view, hv]; exact Rtp.Proofs.HeaderExtSpec.get_del_same _ id hnd
+  · rw [get_view, get_view, hv]; exact Rtp.Proofs.HeaderExtSpec.get_del_other _ id k hk
 
 /-! ### non-vacuity -/
 
